@@ -67,6 +67,7 @@ class Check:
         self.cov = {}
         self.assumptions = []
         os.makedirs(REPLAYS, exist_ok=True)
+        self._janitor()
         if not self.replay:
             for f in os.listdir(REPLAYS):
                 if f.startswith(pid + '-'):
@@ -75,6 +76,26 @@ class Check:
             self.known = json.load(open(KNOWN))
         except Exception:
             self.known = {'findings': [], 'fixed': []}
+
+    @staticmethod
+    def _janitor():
+        """The in-process servers are left through os.Exit (their close function takes 30 s), so their temp directories
+        stay behind: remove scratch directories of harness runs that ended long ago."""
+        import shutil, tempfile
+        now = time.time()
+        td = tempfile.gettempdir()
+        try:
+            names = os.listdir(td)
+        except OSError:
+            return
+        for n in names:
+            if n.startswith(('banyandb-test-', 'verif-', 'banyandb-')):
+                p = os.path.join(td, n)
+                try:
+                    if now - os.path.getmtime(p) > 5400:
+                        shutil.rmtree(p, ignore_errors=True)
+                except OSError:
+                    pass
 
     @property
     def quick(self):
